@@ -350,7 +350,7 @@ fn observe_case<W: Write>(em: &mut Emitter<W>, suite: &str, grid: u8, case: &Val
         "partitions" => crate::algo2::suite_partitions(&g, &mut rng, if big { 5000 } else { 600 }),
         "louvain" => {
             // every call in a child process with a deadline: non-termination is data
-            let calls = crate::algo2::louvain_calls(&g, if big { 30 } else { 6 }, true);
+            let calls = crate::algo2::louvain_calls(&g, if big { 12 } else { 6 }, true);
             let runs: Vec<Value> = calls
                 .into_iter()
                 .map(|c| {
